@@ -56,5 +56,13 @@ let dispatch (t : Stdlib.String.t array) : Stdlib.String.t =
       | Err -> "err parse"
       | Panic s -> "panic " ^ string_of_n s)
   | "seq" -> Seqops.seq !profile_ref t
+  | "rpufile" -> (
+      let cs = int_of_string t.(1) in
+      let cs = if cs = 0 then 100000 else cs in
+      let rec nat_of_int i = if i = 0 then O else S (nat_of_int (i - 1)) in
+      match parse_rpu_file (fun d -> parse_unspec62_nalu !profile_ref src_sw d) (nat_of_int cs) (bytes_of_hex t.(2)) with
+      | Ok l -> "ok " ^ string_of_int (Stdlib.List.length l) ^ " " ^ (if l = [] then "-" else Stdlib.String.concat "," (Stdlib.List.map (fun x -> string_of_n x.rpu_crc) l))
+      | Err -> "err"
+      | Panic s -> "panic " ^ string_of_n s)
   | _ -> failwith ("unknown op " ^ t.(0))
 
